@@ -7,6 +7,7 @@ import (
 	"sort"
 	"sync"
 	"testing/synctest"
+	"time"
 )
 
 // Sched is the tier-E/W scheduler: tasks park at the storage seam (L1) holding
@@ -71,6 +72,7 @@ type Sched struct {
 	CancelledAt int // released calls at the moment the cancel was delivered (-1: none)
 	Ties        int
 	Zombies     int // calls that arrived on, or were overtaken by, a cancelled context
+	idleRounds  int
 }
 
 func NewSched(t *Tape) *Sched {
@@ -193,8 +195,17 @@ func (s *Sched) Drive(done func() bool, maxSteps int) DriveOutcome {
 			continue
 		}
 		if len(P) == 0 {
+			// nothing parked and not done: either a hang, or somebody sleeps on the
+			// (fake) clock - pop's sqlite dialect retries "database is locked" after
+			// a sleep. Let simulated time pass before calling it a hang.
+			if s.idleRounds < 200 {
+				s.idleRounds++
+				time.Sleep(250 * time.Millisecond)
+				continue
+			}
 			return DriveHang
 		}
+		s.idleRounds = 0
 		if s.Released >= maxSteps {
 			return DriveStepLimit
 		}
